@@ -294,7 +294,12 @@ def mon_c05(tr, actor="A"):
     run_err = [e for e in exits if e["hook"] == "on_run" and "Err" in str(e["out"])]
     stop_exit = [e for e in exits if e["hook"] == "on_stop"]
     stop_err = bool(stop_exit) and "Err" in str(stop_exit[0]["out"])
-    consumed = tr.term_consumed(actor) is not None
+    # "killed exactly when a kill signal ended the actor": the signal was consumed by the loop's
+    # termination branch, i.e. on_stop was invoked with killed=true (C04 ties that argument to
+    # the consumption of a Terminate *before* on_stop); a signal that arrives later, while the
+    # actor is already stopping, did not end it.
+    stop_enter = tr.hook(actor, "on_stop", "hook_enter")
+    consumed = bool(stop_enter) and stop_enter[0][1]["killed"] is True
     ran = len(exits)      # hooks/handlers that ran to completion, each bumps the actor's counter
     if not start_ok:
         exp = ("Failed", "OnStart", False, None, script.err_tag + 1)
